@@ -24,6 +24,9 @@ for d in ids:
     first = viol[0].strip()[10:170] if viol else ([l for l in out.splitlines() if l.startswith("VIOLATION")] or [""])[0][:170]
     rows.append((d, prop, "DETECTED" if detected else "MISSED", first))
     print(d, rows[-1][2], first[:100], flush=True)
+if sys.argv[1:]:
+    print(sum(1 for r in rows if r[2] == "DETECTED"), "of", len(rows), "detected (partial run: MATRIX.md left alone)")
+    sys.exit(0)
 with open(os.path.join(root, "MATRIX.md"), "w") as f:
     f.write("# Seeded changes vs. the quick checks (tools/run_seeded.py, on /repo HEAD %s)\n\n" % subprocess.run(["git", "-C", "/repo", "log", "--format=%h", "-1"], capture_output=True, text=True).stdout.strip())
     f.write("| seeded change | property | result | first violation reported |\n|---|---|---|---|\n")
